@@ -125,7 +125,7 @@ def tight_cases(rng, n):
     # a write between an element and the one-element tuple holding it, between tuples that differ by a leading 0 / by where they
     # end: Python's hash() tells them apart, so must the fingerprint (F50)
     for col, w in (([["tup", [5]], 2.5], [0, 5]), ([5, 2.5], [0, ["tup", [5]]]), ([["tup", [0, 1]], 2.5], [0, ["tup", [1]]]),
-                   ([["tup", [["nan"]]], 2.5], [0, ["nan"]]), ([["tup", []], 2.5], [0, ["tup", [0]]]),
+                   ([["tup", [["nan"]]], 2.5], [0, ["nan"]]), ([["tup", []], 2.5], [0, ["tup", [0]]]), ([["tup", []], 2.5], [0, 1]), ([1, 2.5], [0, ["tup", []]]), ([["tup", []], 2.5], [0, 0]),
                    ([["tup", [["tup", [1, 2]], 3]], 2.5], [0, ["tup", [1, ["tup", [2, 3]]]]]), ([["tup", [1, 2]], 2.5], [0, ["tup", [2, 1]]])):
         for via in ("vector", "colview"):
             # (a str makes it an object column: every write fits)
